@@ -47,6 +47,7 @@ type Engine struct {
 	astFiles    map[string]*ast.File
 	workers     int
 	only        string
+	budgetS     float64
 }
 
 func (e *Engine) allPkgs() []*packages.Package {
@@ -367,6 +368,10 @@ func (e *Engine) RunHarness(fn *ssa.Function, logDir string) *HarnessRun {
 		last := &ex.decisions[len(ex.decisions)-1]
 		last.choice = !last.choice
 		last.hasAlt = false
+		if e.budgetS > 0 && time.Since(t0).Seconds() > e.budgetS {
+			h.inconclusive = append(h.inconclusive, fmt.Sprintf("time budget %.0fs exhausted after %d paths (bound too large for this tier)", e.budgetS, h.stats.Paths))
+			break
+		}
 		if h.stats.Paths+h.stats.Pruned >= e.maxPaths {
 			h.inconclusive = append(h.inconclusive, fmt.Sprintf("path bound %d reached", e.maxPaths))
 			break
@@ -424,6 +429,9 @@ func (ex *Exec) runPath(fn *ssa.Function) {
 	}()
 	ex.callFunction(fn, nil, nil)
 	h.stats.Paths++
+	if ex.pos < len(ex.decisions) {
+		h.inconclusive = append(h.inconclusive, "engine non-determinism: path ended before consuming its decision prefix")
+	}
 	for _, c := range ex.pathCovers {
 		h.covers[c]++
 	}
